@@ -10,6 +10,7 @@ import (
 	_ "verif/harness/c06"
 	_ "verif/harness/c07"
 	_ "verif/harness/c08"
+	_ "verif/harness/c09"
 
 	"github.com/sdcio/yang-parser/verifrt"
 )
